@@ -3,6 +3,9 @@ import Zstd.Driver.Headers
 import Zstd.Driver.Window
 import Zstd.Driver.Spec
 import Zstd.Driver.Dec
+import Zstd.Driver.Io
+import Zstd.Driver.Cli
+import Zstd.Driver.DictBuilder
 import Zstd.Driver.Huf
 import Zstd.Driver.BitIO
 import Zstd.Driver.Fse
@@ -29,6 +32,9 @@ def step (st : St) (line : String) : St × String :=
   | "bits" :: cmd :: args => (st, Driver.BitIO.handle cmd args)
   | "fse" :: cmd :: args => (st, Driver.Fse.handle cmd args)
   | "huf" :: cmd :: args => let (c, o) := Driver.Huf.step st.huf cmd args; ({ st with huf := c }, o)
+  | "io" :: cmd :: args => (st, Io.handleStd cmd args)
+  | "cli" :: cmd :: args => (st, Cli.handle cmd args)
+  | "dictbuilder" :: cmd :: args => (st, DictBuilder.handle cmd args)
   | "dec" :: args => let (s2, o) := Dec.step st.dec args; ({ st with dec := s2 }, o)
   | _ => (st, badOp)
 
